@@ -345,6 +345,31 @@ def zoo(tier):
 # --------------------------------------------------------------------------
 
 
+def after_others(mk):
+    """history: before the model under test is used, OTHER models (small FCNs) that DECLARE exactly the layouts it will be
+    asked with (every other variable order, every renamed layout of missing/) have been evaluated on such Points -- what
+    another model accepted must not influence this one"""
+    def mk2(env):
+        m = mk(env)
+        order = keys_of(m.input_space)
+        dims = {v: m.input_space[v] for v in order}
+        layouts = [[(v, dims[v]) for v in p] for p in itertools.permutations(order) if list(p) != order]
+        for v in order:
+            o2 = [(w, dims[w]) if w != v else ("zz", dims[v]) for w in order]
+            layouts.append(o2)
+            if len(order) > 1:
+                layouts.append(o2[1:] + o2[:1])
+            rest = [(w, dims[w]) for w in order if w != v]
+            if rest:
+                layouts.append(rest)
+        for i, lay in enumerate(layouts):
+            sp = Space(dict(lay))
+            other = symbolize(env, FCN(sp, U1, hidden=(2,), activations=nn.Tanh()), "wo%d" % i)
+            other(Points(torch.cat([env.tensor("ino%d_%s" % (i, n), (2, d)) for n, d in lay], dim=-1), sp))
+        return m
+    return mk2
+
+
 def perm_case(mname, mk, batch):
     cname = "perm/%s/b%s" % (mname, "x".join(map(str, batch)))
 
@@ -571,6 +596,10 @@ def cases(tier):
         if "/abc" in mname and quick:
             continue
         cs.append(axes_case(mname, mk, accepts="Poly" not in mname))
+    # the same claims after other models were evaluated on the layouts in question (process-wide state)
+    for mname in ["FCN-tanh/xt/u1", "QRES-tanh/xt/u1", "Norm-sym/xt"] + ([] if quick else ["Harmonic-f1/xt/u1", "DeepRitz-d1/xt/u1", "FCN-relu/abc/u1"]):
+        cs.append(perm_case("after_others:" + mname, after_others(z[mname]), (2,)))
+        cs.append(missing_case("after_others:" + mname, after_others(z[mname])))
     # Polynomial_FCN is written for ONE batch axis; where sizes happen to fit it must not silently mix rows
     cs.append(axes_case("Poly-d1/x/u1", lambda env: symbolize(env, Polynomial_FCN(X, U1, polynomial_degree=1, hidden=(2,))),
                         accepts=False))
